@@ -25,10 +25,14 @@ unsigned long g_fid;                         /* watched function id (non-zero) *
 unsigned g_popped_fn, g_invoked, g_popped_focus, g_invoked_focus, g_stop_popped, g_task_ctor, g_task_dtor;
 unsigned g_push_local, g_push_global; Task_t *g_pushed_task; Q_t *g_pushed_q; int g_pushed_type; unsigned long g_pushed_fid;
 _Bool g_running_in; size_t g_local_size; Q_t g_localq;
+struct BasicExecutor *g_scope_exec, *g_focus_scope;   /* executor whose RunnerScope is open on this thread; the one open when the watched function ran */
+unsigned g_scope_open, g_scope_close;
 unsigned g_joins, g_balance_joins; size_t g_nthreads, g_it; _Bool g_cleared, g_balance_joinable, g_pushed_before_balance_join;
+unsigned g_adds, g_subs, g_threads_made, g_detached, g_loads; unsigned long g_thread_fid, g_last_load; _Bool g_counted_before_thread, g_sub_after_run;
 static void vf_havoc_ghosts(void) {
   g_fid = nondet_u64(); g_popped_fn = g_invoked = g_popped_focus = g_invoked_focus = g_stop_popped = g_task_ctor = g_task_dtor = 0;
-  g_push_local = g_push_global = 0; g_running_in = nondet_bool(); g_local_size = nondet_u64();
+  g_push_local = g_push_global = 0; g_scope_exec = 0; g_focus_scope = 0; g_scope_open = g_scope_close = 0; g_running_in = nondet_bool(); g_local_size = nondet_u64();
+  g_adds = g_subs = g_threads_made = g_detached = g_loads = 0; g_thread_fid = 0; g_last_load = nondet_u64(); g_counted_before_thread = 0; g_sub_after_run = 0;
   g_joins = g_balance_joins = 0; g_nthreads = nondet_u64(); g_it = 0; g_cleared = 0; g_balance_joinable = nondet_bool(); g_pushed_before_balance_join = 0;
 }
 /* ---- tasks and function objects */
@@ -38,7 +42,7 @@ void Fn_ctor__void(struct Fn *f) { FID(f) = 0; }
 void Fn_ctor__MoveOnlyFunction_L_void_RR(struct Fn *f, struct Fn *o) { FID(f) = FID(o); FID(o) = 0; }      /* move: the source is left empty */
 void Fn_op_call(struct Fn *f) {
   __CPROVER_assert(FID(f) != 0, "K5 C07.worker only a task that holds a function is invoked");
-  __CPROVER_assume(g_invoked < 1000000); g_invoked++; if (FID(f) == g_fid) g_invoked_focus++;
+  __CPROVER_assume(g_invoked < 1000000); g_invoked++; if (FID(f) == g_fid) { g_invoked_focus++; g_focus_scope = g_scope_exec; }
 }
 /* ---- queues: whatever a pop delivers was pushed by somebody and is delivered once (C01) */
 static _Bool deliver(Task_t *t) {
@@ -62,8 +66,8 @@ static void pushed(Q_t *q, Task_t *t) { g_pushed_q = q; g_pushed_task = t; g_pus
 void ConcurrentBoundedQueue_L_Pool_Task_SchedInterface_R_push__0_0_0_Pool_Task_0(Q_t *q, Task_t *t) { __CPROVER_assume(g_push_local < 1000000); g_push_local++; pushed(q, t); }
 void ConcurrentBoundedQueue_L_Pool_Task_SchedInterface_R_push__1_0_1_Pool_Task_0(Q_t *q, Task_t *t) { __CPROVER_assume(g_push_global < (1u << 30)); g_push_global++; pushed(q, t); }
 _Bool BasicExecutor_is_running_in(struct BasicExecutor *e) { return g_running_in; }
-void BasicExecutor_RunnerScope_ctor__BasicExecutorR(struct BasicExecutor_RunnerScope *s, struct BasicExecutor *e) { s->_old_current = 0; }
-void BasicExecutor_RunnerScope_dtor(struct BasicExecutor_RunnerScope *s) { }
+void BasicExecutor_RunnerScope_ctor__BasicExecutorR(struct BasicExecutor_RunnerScope *s, struct BasicExecutor *e) { s->_old_current = 0; g_scope_exec = e; __CPROVER_assume(g_scope_open < 1000); g_scope_open++; }
+void BasicExecutor_RunnerScope_dtor(struct BasicExecutor_RunnerScope *s) { g_scope_exec = 0; g_scope_close++; }
 /* ---- threads */
 _Bool std_thread_joinable(struct std_thread *t) { return g_balance_joinable; }
 struct std_thread g_threads_store[1];
@@ -97,13 +101,16 @@ __CPROVER_ensures(!*self->cap_steal_success ==> (g_popped_fn == __CPROVER_old(g_
 /* worker loop */
 void Pool_keep_execute(Pool_t *p)
 __CPROVER_requires(P_SHAPE(p) && g_fid != 0)
-__CPROVER_assigns(g_popped_fn, g_invoked, g_popped_focus, g_invoked_focus, g_stop_popped, g_task_ctor, g_task_dtor)
+__CPROVER_assigns(g_popped_fn, g_invoked, g_popped_focus, g_invoked_focus, g_stop_popped, g_task_ctor, g_task_dtor, g_scope_exec, g_focus_scope, g_scope_open, g_scope_close)
+__CPROVER_ensures(g_invoked_focus >= 1 ==> g_focus_scope == &p->__base_Executor.__base_BasicExecutor)   /* tasks run on a thread that reports itself as running in this executor */
+__CPROVER_ensures(g_scope_open == 1 && g_scope_close == 1)
 __CPROVER_ensures(g_stop_popped >= 1)                                               /* left only by a STOP task */
 __CPROVER_ensures(g_invoked == g_popped_fn && g_invoked_focus == g_popped_focus)    /* every obtained function ran exactly once, nothing else ran */
 __CPROVER_ensures(g_task_dtor == g_task_ctor)                                       /* no task object is left behind */
 ;
 //@loop Pool_keep_execute 1
-//@  __CPROVER_assigns(g_popped_fn, g_invoked, g_popped_focus, g_invoked_focus, g_stop_popped, g_task_ctor, g_task_dtor)
+//@  __CPROVER_assigns(g_popped_fn, g_invoked, g_popped_focus, g_invoked_focus, g_stop_popped, g_task_ctor, g_task_dtor, g_focus_scope)
+//@  __CPROVER_loop_invariant(g_scope_exec == &self->__base_Executor.__base_BasicExecutor && g_scope_open == 1 && g_scope_close == 0 && (g_invoked_focus >= 1 ==> g_focus_scope == g_scope_exec))
 //@  __CPROVER_loop_invariant(g_invoked == g_popped_fn && g_invoked_focus == g_popped_focus && g_stop_popped == 0 && g_task_dtor == g_task_ctor)
 //@end
 
@@ -143,5 +150,66 @@ __CPROVER_ensures((__CPROVER_old(p->_running) && g_nthreads > 0) ==> (g_pushed_t
 //@  __CPROVER_assigns(g_it, g_joins)
 //@  __CPROVER_loop_invariant(g_it <= g_nthreads && g_joins == g_it && g_it_end == g_nthreads)
 //@  __CPROVER_decreases(g_nthreads - g_it)
+//@end
+
+/* ================= inplace and always-new-thread executors =================
+ * inplace invoke   : the function runs exactly once, before invoke returns, inside a RunnerScope of this executor; success is reported;
+ * new-thread invoke: the task is COUNTED (fetch_add on _running, release or stronger) BEFORE its thread exists -- join() and the
+ *                    destructor wait for _running == 0, so a task counted only by its own thread could be missed by them --; exactly
+ *                    one thread is created, it owns the function object (moved), and it is detached; success is reported;
+ * thread body      : runs the function exactly once inside a RunnerScope of this executor and only then gives its count back
+ *                    (fetch_sub with release or stronger: join's acquire load then sees the task's effects);
+ * join             : returns only after an acquire load of _running that read 0. */
+typedef struct AlwaysUseNewThreadExecutor NTE_t;
+typedef struct lambda_executor_invoke_1 NTL_t;
+#define LBODY AlwaysUseNewThreadExecutor_invoke_lambda_executor_invoke_1_op_call
+unsigned long vf_atomic_fetch_add_u64(unsigned long *p, unsigned long v, int order, int site) {
+  __CPROVER_assert(v == 1 && (order == 3 || order == 4 || order == 5), "K6 C07.newthread a task is counted with one release-or-stronger increment");
+  g_adds++; unsigned long o = *p; *p = o + v; return o;
+}
+unsigned long vf_atomic_fetch_sub_u64(unsigned long *p, unsigned long v, int order, int site) {
+  __CPROVER_assert(v == 1 && (order == 3 || order == 4 || order == 5), "K6 C07.newthread the count is given back with one release-or-stronger decrement");
+  g_sub_after_run = (g_invoked_focus == 1); g_subs++; unsigned long o = *p; *p = o - v; return o;
+}
+unsigned long vf_atomic_load_u64(unsigned long *p, int order, int site) {
+  __CPROVER_assert(order == 2 || order == 5, "K6 C07.newthread join reads the count with acquire");
+  g_last_load = nondet_u64(); __CPROVER_assume(g_loads < 1000000); g_loads++; return g_last_load;     /* other threads count up and down */
+}
+int vf_usleep(unsigned us) { return 0; }
+void std_thread_ctor_1(struct std_thread *t, NTL_t *body) {
+  g_counted_before_thread = (g_adds == 1); g_threads_made++; g_thread_fid = FID(&body->cap1); FID(&body->cap1) = 0;     /* the thread takes the closure */
+}
+void std_thread_detach(struct std_thread *t) { g_detached++; }
+void std_thread_dtor(struct std_thread *t) { }
+
+int InplaceExecutor_invoke(struct InplaceExecutor *e, struct Fn *f)
+__CPROVER_requires(__CPROVER_is_fresh(e, sizeof(*e)) && __CPROVER_is_fresh(f, sizeof(*f)) && FID(f) == g_fid && g_fid != 0)
+__CPROVER_assigns(g_invoked, g_invoked_focus, g_scope_exec, g_focus_scope, g_scope_open, g_scope_close)
+__CPROVER_ensures(__CPROVER_return_value == 0 && g_invoked == 1 && g_invoked_focus == 1 && g_focus_scope == &e->__base_Executor.__base_BasicExecutor)
+__CPROVER_ensures(g_scope_open == 1 && g_scope_close == 1)
+;
+int AlwaysUseNewThreadExecutor_invoke(NTE_t *e, struct Fn *f)
+__CPROVER_requires(__CPROVER_is_fresh(e, sizeof(*e)) && __CPROVER_is_fresh(f, sizeof(*f)) && FID(f) == g_fid && g_fid != 0 && e->_running < (1UL << 62))
+__CPROVER_requires(g_adds == 0 && g_threads_made == 0 && g_detached == 0 && g_subs == 0)
+__CPROVER_assigns(e->_running, *f, g_adds, g_threads_made, g_detached, g_thread_fid, g_counted_before_thread)
+__CPROVER_ensures(__CPROVER_return_value == 0 && g_adds == 1 && e->_running == __CPROVER_old(e->_running) + 1)
+__CPROVER_ensures(g_threads_made == 1 && g_counted_before_thread && g_detached == 1)
+__CPROVER_ensures(g_thread_fid == g_fid && FID(f) == 0 && g_invoked == 0)     /* the thread owns the function; the caller's thread did not run it */
+;
+void LBODY(NTL_t *c)
+__CPROVER_requires(__CPROVER_is_fresh(c, sizeof(*c)) && __CPROVER_is_fresh(c->cap_this, sizeof(NTE_t)) && FID(&c->cap1) == g_fid && g_fid != 0 && c->cap_this->_running >= 1)
+__CPROVER_requires(g_subs == 0 && g_adds == 0)
+__CPROVER_assigns(c->cap_this->_running, g_invoked, g_invoked_focus, g_scope_exec, g_focus_scope, g_scope_open, g_scope_close, g_subs, g_sub_after_run)
+__CPROVER_ensures(g_invoked == 1 && g_invoked_focus == 1 && g_focus_scope == &c->cap_this->__base_Executor.__base_BasicExecutor)
+__CPROVER_ensures(g_subs == 1 && g_sub_after_run && g_adds == 0 && c->cap_this->_running == __CPROVER_old(c->cap_this->_running) - 1)
+;
+void AlwaysUseNewThreadExecutor_join(NTE_t *e)
+__CPROVER_requires(__CPROVER_is_fresh(e, sizeof(*e)))
+__CPROVER_assigns(g_loads, g_last_load)
+__CPROVER_ensures(g_loads >= 1 && g_last_load == 0)
+;
+//@loop AlwaysUseNewThreadExecutor_join 1
+//@  __CPROVER_assigns(g_loads, g_last_load)
+//@  __CPROVER_loop_invariant(1)
 //@end
 #endif
